@@ -2999,6 +2999,8 @@ pub struct VerifState {
     pub lexer_stack_top_eos: bool,
     /// lexemes scanned from row i to row i + 1, for the definitive rows
     pub row_lexemes: Vec<Vec<u32>>,
+    /// lexemes possible in the lexer start state of rows 0..num_rows (what the row allows, plus skip)
+    pub row_allowed: Vec<Vec<u32>>,
 }
 
 #[cfg(feature = "llg_verif")]
@@ -3046,6 +3048,20 @@ impl Parser {
                 .as_ref()
                 .map(|c| (c.lexer_state.as_u32(), c.row_idx, c.has_pending_lexeme_bytes)),
             lexer_stack_top_eos: s.lexer_stack_top_eos,
+            row_allowed: {
+                let sh = self.shared.lock().unwrap();
+                s.rows
+                    .iter()
+                    .take(num_rows)
+                    .map(|r| {
+                        sh.lexer()
+                            .possible_lexemes(r.lexer_start_state)
+                            .iter()
+                            .map(|l| l.as_usize() as u32)
+                            .collect()
+                    })
+                    .collect()
+            },
             row_lexemes: {
                 let sh = self.shared.lock().unwrap();
                 // row_infos[i].lexeme is the lexeme scanned from row i (stored when row i + 1 is added);
